@@ -231,26 +231,36 @@ def matrixToCartesianIndexing(img: np.ndarray, dim: int = 2) -> np.ndarray:
     return img
 
 
-def cartesianToMatrixIndexing(img: np.ndarray) -> np.ndarray:
+def cartesianToMatrixIndexing(img: np.ndarray, dim: int = 2) -> np.ndarray:
     """
     Reordering data indexing, converting from (x,y) to (row,col) indexing.
 
     Inverse to matrixToCartesianIndexing.
 
-    NOTE: Assumes 2d images.
-
     Arguments:
         np.ndarray: image array with Cartesian indexing
+        dim (int): dimension of the image, default is 2
 
     Returns:
         np.ndarray: image array with matrix indexing
     """
-    # Two operations are require: Swapping axis and flipping the vertical axis.
+    if dim == 1:
+        pass
+    elif dim == 2:
+        # Two operations are require: Swapping axis and flipping the vertical axis.
 
-    # Flip the orientation of the second axis, such that later row=0 is located at the top.
-    img = np.flip(img, 1)
+        # Flip the orientation of the second axis, such that later row=0 is located at the top.
+        img = np.flip(img, 1)
 
-    # Exchange first and second component, to change from (x,y) to (row,col) format.
-    img = np.swapaxes(img, 0, 1)
+        # Exchange first and second component, to change from (x,y) to (row,col) format.
+        img = np.swapaxes(img, 0, 1)
+    elif dim == 3:
+        # Revert the operations of matrixToCartesianIndexing in opposite order.
+        img = np.flip(img, 2)
+        img = np.flip(img, 1)
+        img = np.swapaxes(img, 0, 1)
+        img = np.swapaxes(img, 0, 2)
+    else:
+        raise ValueError("Only 1d, 2d, and 3d images are supported.")
 
     return img
